@@ -498,6 +498,9 @@ func c14SchemaUnit(c *mon.Ctx, r *mon.Rng, per, combos int) {
 		if k%3 == 0 {
 			c14CommentEnded(c, r, s0)
 		}
+		if k%4 == 1 {
+			c14Unclosed(c, r)
+		}
 		c14Negative(c, r, "schema", s0, info.cuts, combos/3)
 		if k == 0 && c.Unit < 4 {
 			c.Sample("schema text, ending class "+info.class, map[string]any{"text": s0 + "\n\nTYPE @x", "expected_len": len(s0)})
@@ -519,6 +522,22 @@ func c14CommentEnded(c *mon.Ctx, r *mon.Rng, s0 string) {
 	a, b := fmt.Sprintf("len=%d", len(withComment)), fmt.Sprintf("len=%d", len(s0))
 	if got != a && got != b {
 		c.Violate("len-comment", c14Case{"schema", text}, a+" or "+b, got, "Len of a schema whose last token is a block comment counts neither the end of the comment nor the end of the schema proper")
+	}
+}
+
+// c14Unclosed: a complete value followed by a multi-line annotation that is never closed (the
+// end marker was forgotten): the text does not begin with a lexically complete schema, whatever
+// follows - Len owes an error, not the length of everything up to the end of the file.
+func c14Unclosed(c *mon.Ctx, r *mon.Rng) {
+	root := mon.Pick(r, []string{"42", "\"abc\"", "{}", "[1, 2]", "@cat | @dog", "{\n  \"a\": 1\n}", "true", "[\n  @cat\n]"})
+	open := mon.Pick(r, []string{" /* {nullable: true}", " /* note", " /*", " /* {nullable: true} - note", "\t/* {\n  nullable: true\n}"})
+	rest := mon.Pick(r, []string{"", "\n", "\n\nTYPE @x\n  {}\n", " GET /cats\n  200 @cat", "\r\n# c\r\n", " * /"})
+	text := root + open + rest
+	_, o := c14Len("schema", text)
+	c.Eval(1)
+	c.Count("schema followed by a multi-line annotation that is never closed", 1)
+	if o.OK {
+		c.Violate("len", c14Case{"schema", text}, "error", c14Observed("schema", text), "Len returned a length for a value followed by a multi-line annotation that is never closed")
 	}
 }
 
